@@ -3,4 +3,8 @@ EXTENDS PoolFork
 McTx == {"x", "y", "z"}
 \* one transaction that expires in the first epoch, two that are only valid in (and live until) the second
 McTxEp == [t \in McTx |-> IF t = "x" THEN 0 ELSE 1]
+\* three epochs: one transaction each
+McTxEp3 == [t \in McTx |-> IF t = "x" THEN 0 ELSE IF t = "y" THEN 1 ELSE 2]
+\* before the run every transaction was submitted to the node, or none (they are only known from blocks)
+McPend == {McTx, {}}
 ====
